@@ -78,7 +78,10 @@ def run(ctx):
                 r["err"] = type(ex).__name__
             S.append(r)
             ctx.count(f"s{v}{neg}")
-    ints = [0, 1, 37, 63, 64, 127, 128, 160, 16383, 16384, 2 ** 21, 2 ** 31 - 1] + [rng.getrandbits(rng.choice([4, 8, 16, 31])) for _ in range(300 if ctx.quick else 3000)]
+    # integer parts up to the top of the 32-bit range: with 21 fraction bits such a value uses all 53 bits of a double, where
+    # "+ 0.5 then truncate" is an exact tie
+    ints = ([0, 1, 37, 63, 64, 127, 128, 160, 16383, 16384, 2 ** 21, 2 ** 31 - 1, 2 ** 31, 2 ** 31 + 1, 2 ** 32 - 2, 2 ** 32 - 1]
+            + [rng.getrandbits(rng.choice([4, 8, 16, 31, 32, 32])) for _ in range(300 if ctx.quick else 3000)])
     for i in ints:
         for p in (1, 2, 3):
             ks = {0, 1, 2, 63, 64, 127, 128 ** p - 1, 128 ** p // 2} | {128 ** (p - 1) * m for m in (1, 7, 64, 127)} | {rng.randrange(128 ** p) for _ in range(6)}
@@ -89,6 +92,8 @@ def run(ctx):
                             continue
                         if not signed and i > 2 ** 32 - 1:
                             continue
+                        if signed and i > 2 ** 31 - 1:
+                            continue               # the signed writer asserts |integer part| < 2^31
                         x = i + k / 128 ** p
                         x = -x if neg else x
                         r = {"v": pair(i), "k": k, "p": p, "signed": signed, "neg": neg, "w": [], "idx": -1, "back_equal": False, "err": ""}
